@@ -16,7 +16,9 @@ impl std::fmt::Display for Captured { fn fmt(&self, f: &mut std::fmt::Formatter)
 """
 
 
-def rand_spelling(r, uni=True):
+def rand_spelling(r, uni=True, braces=False):
+    if braces and r.random() < 0.06:
+        return r.choice(gen.SPELLINGS_BRACES)
     x = r.random()
     if x < 0.45:
         return r.choice(gen.SPELLINGS_ASCII)
@@ -27,6 +29,12 @@ def rand_spelling(r, uni=True):
     alpha = r.choice(["abAB", "aA1_", "xyXY-", "kKsSiI", "aé", "abc", "AB", "a b"] + (["éÉßK", "σΣς"] if uni else []))
     n = r.randint(1, 6)
     return "".join(r.choice(alpha) for _ in range(n))
+
+
+def has_placeholder_braces(s):
+    """True unless every brace in s is part of a doubled (escaped) pair."""
+    t = s.replace("{{", "").replace("}}", "")
+    return "{" in t or "}" in t
 
 
 def claims_of(v, style, enum_aci):
@@ -47,7 +55,7 @@ def conflict(c1, c2):
 def build(r, name, derives, n=None, styles=True, allow_default=True, allow_disabled=True, allow_aci=True,
           allow_prefix=False, fieldless=False, generics_pool=(None, None, None, "T", "a", "aT", "N", "Tw"),
           distinct_lengths=False, uni=True, naming_bias=0.6, max_n=9, capture_types=None, allow_default_with=True,
-          forced_style="__unset__", dup_within_variant=True):
+          forced_style="__unset__", dup_within_variant=True, allow_braces=False):
     """Random string enum inside the domain of C01 (non-overlapping spellings)."""
     if n is None:
         n = r.choice([0, 1, 2, 3, 3, 4, 5, 6, 7, max_n])
@@ -61,6 +69,7 @@ def build(r, name, derives, n=None, styles=True, allow_default=True, allow_disab
     if allow_prefix and r.random() < 0.5:
         spec.prefix = r.choice(gen.PREFIXES)
     spec.enum_attr_split = r.choice([0, 1])
+    spec.attr_order_seed = r.choice([0, 0, 1, 2, 3, 4, 5, 6])
     idents = gen.pick_idents(r, n + 4)
     taken = []   # claims of all variants generated so far (including disabled/default ones)
     have_default = False
@@ -78,19 +87,19 @@ def build(r, name, derives, n=None, styles=True, allow_default=True, allow_disab
                 if y < 0.45:
                     k = r.choice([1, 1, 2, 3])
                     if distinct_lengths:
-                        v.serialize = gen.distinct_len_spellings(r, k, [rand_spelling(r, uni) for _ in range(40)], [])
+                        v.serialize = gen.distinct_len_spellings(r, k, [rand_spelling(r, uni, allow_braces) for _ in range(40)], [])
                     else:
-                        v.serialize = [rand_spelling(r, uni) for _ in range(k)]
+                        v.serialize = [rand_spelling(r, uni, allow_braces) for _ in range(k)]
                         if dup_within_variant and k >= 2 and r.random() < 0.15:
                             # fold-equal spellings on one variant are legal (C16 repair note)
                             v.serialize[1] = v.serialize[0].swapcase() if v.serialize[0].swapcase() != v.serialize[0] else v.serialize[1]
                 elif y < 0.7:
-                    v.to_string = rand_spelling(r, uni)
+                    v.to_string = rand_spelling(r, uni, allow_braces)
                 else:
-                    v.to_string = rand_spelling(r, uni)
+                    v.to_string = rand_spelling(r, uni, allow_braces)
                     k = r.choice([1, 2])
-                    v.serialize = [rand_spelling(r, uni) for _ in range(k)]
-            if "{" in (v.to_string or "") or any("{" in s or "}" in s for s in v.serialize) or "}" in (v.to_string or ""):
+                    v.serialize = [rand_spelling(r, uni, allow_braces) for _ in range(k)]
+            if any(has_placeholder_braces(x) for x in v.serialize + [v.to_string or ""]):
                 continue
             if allow_aci:
                 z = r.random()
